@@ -127,6 +127,54 @@ func cmdPlant(args []string) {
 			}
 		}
 	}
+	// ---- mirrored certificates: the subject copied into the issuer (and the other way round), the SAN copied into an IAN extension.
+	// Rules that exist for two mirror-image fields are then fed the very same bytes twice in one run of the registry.
+	mirrored := 0
+	for oi, o := range c.Certs {
+		if tier != "thorough" && oi%2 != int(seed)%2 {
+			continue
+		}
+		fc, err := forge.ParseCert(o.DER)
+		if err != nil {
+			continue
+		}
+		for form := 0; form < 3; form++ {
+			v := fc.Clone()
+			switch form {
+			case 0:
+				v.SetIssuer(v.Subject().Clone())
+			case 1:
+				v.SetSubject(v.Issuer().Clone())
+			default:
+				san := v.FindExt(forge.OIDSAN)
+				if san == nil {
+					continue
+				}
+				v.SetExt(forge.OIDIAN, forge.MakeExt(forge.OIDIANNode(), false, forge.ExtValue(san).Body()))
+			}
+			cert, ok, _ := corpus.ParseCert(v.Bytes())
+			if !ok {
+				continue
+			}
+			t := &Target{Kind: "cert", ID: fmt.Sprintf("mirrored:%s:form%d", o.ID, form), DER: v.Bytes(), Cert: cert}
+			rs, esc, hung := runSet(t, g)
+			n++
+			mirrored++
+			if rs == nil || esc != "" || hung {
+				panics = append(panics, ev.M{"id": t.ID, "escaped": esc, "hung": hung, "der": b64(t.DER)})
+				continue
+			}
+			for ln, r := range rs.Results {
+				if r == nil {
+					continue
+				}
+				statuses[fmt.Sprintf("%s|%d", ln, int(r.Status))] = true
+				if r.Status == lint.Fatal && detailsClass(ln, r.Details) == "panicmsg" {
+					panics = append(panics, ev.M{"id": t.ID, "lint": ln, "recovered": r.Details, "der": b64(t.DER)})
+				}
+			}
+		}
+	}
 	var sl []string
 	for s := range statuses {
 		sl = append(sl, s)
@@ -137,5 +185,5 @@ func cmdPlant(args []string) {
 		panics = []ev.M{}
 	}
 	ev.WriteJSON(out("panics.json"), panics)
-	ev.WriteJSON(out("summary.json"), ev.M{"planted": n, "vocabulary": len(vocab), "templates": tids})
+	ev.WriteJSON(out("summary.json"), ev.M{"planted": n, "mirrored": mirrored, "vocabulary": len(vocab), "templates": tids})
 }
